@@ -193,7 +193,9 @@ func chanTryRecv(p *Chan, v unsafe.Pointer, eltSize int, acceptSelectSend bool) 
 	p.cond.Broadcast()
 	if n == 0 {
 		p.mutex.Lock()
-		for p.getp == chanHasRecv && !p.close {
+		// The senders counted in p.sends may be select cases that commit
+		// elsewhere; give up the hand-off when none is left.
+		for p.getp == chanHasRecv && !p.close && p.sends > 0 {
 			p.cond.Wait(&p.mutex)
 		}
 		recvOK = chanEndRecv(p)
@@ -468,6 +470,10 @@ func endSelect(c *Chan, selOp *selectOp, isSend bool) {
 		}
 	}
 	c.mutex.Unlock()
+	if c.cap == 0 && isSend {
+		// A select receive may be waiting for a hand-off from this select.
+		c.cond.Broadcast()
+	}
 }
 
 // -----------------------------------------------------------------------------
